@@ -201,6 +201,7 @@ pub fn c08() -> PropDef {
         check: check_c08,
         adjust: no_adjust,
         assumptions: COMMON_ASSUMPTIONS,
+        tiny: no_tiny,
     }
 }
 
@@ -439,5 +440,6 @@ pub fn c11() -> PropDef {
         check: check_c11,
         adjust: adjust_c11,
         assumptions: COMMON_ASSUMPTIONS,
+        tiny: no_tiny,
     }
 }
